@@ -77,7 +77,8 @@ def layout_case(ctx, suite, g, b, case):
     nodes_in, edges_in = list(g.nodes), [tuple(e) for e in g.edges]
     try:
         with lib.quiet():
-            pos = gl.vespr_layout(g, default_bond=b)
+            align = None if case.get('align') is None else np.array(case['align'], dtype=float)
+            pos = gl.vespr_layout(g, default_bond=b) if align is None else gl.vespr_layout(g, default_bond=b, align_with=align)
     except Exception as err:   # noqa: BLE001
         ctx.fail(case, f'vespr_layout raised {type(err).__name__}: {str(err)[:80]}')
         return None
@@ -96,7 +97,7 @@ def layout_case(ctx, suite, g, b, case):
     else:
         engine_ok = True
     # (the property itself is checked on the returned positions below, whatever the engine did)
-    if engine_ok and not ctx.oracle_only and not nx.get_node_attributes(g, 'ez_isomer'):
+    if engine_ok and not ctx.oracle_only and not nx.get_node_attributes(g, 'ez_isomer') and case.get('align') is None:
         # distance table
         ds = sorted({int(round(d)) for s in nx.shortest_path_length(g) for d in s[1].values()})
         raw = dict(nx.shortest_path_length(g))
@@ -200,6 +201,10 @@ def run(ctx):
         g = rnd_graph(rng, 9 if ctx.tier == 'quick' else 16)
         b = rng.choice([1, 1.0, 0.5, 2.5, 10])
         case = {'kind': 'layout', 'nodes': list(g.nodes), 'edges': [list(e) for e in g.edges], 'bond': b, 'seed': rng.randint(0, 999)}
+        if i % 4 == 3:
+            # the drawing aligned with an axis (as draw_molecule does): the scale is still the requested one
+            case['align'] = rng.choice([[1.0, 0.0], [0.0, 1.0], [3.0, 2.0], [0.3, 0.4]])
+            ctx.feature('aligned')
         layout_case(ctx, 'nxgraph', g, b, case)
         # relabeling: the guarantees hold for every labelling
         perm = list(g.nodes)
